@@ -51,7 +51,8 @@ ASSUMES = [
 TRUSTED = ["numba's compilation of the kernels: it implements the Python / numpy semantics written once in "
            "Lib/KernelIR.v (negative-index wrap-around, range, break, value of a loop variable after a loop, slices, "
            "IEEE inf / NaN); int16 / int64 / float32 / float64 widths are recorded in the trees but integers and "
-           "rationals are exact in the evaluator (arms < 32768, exact float sums: checked domain of the correspondence)",
+           "rationals are exact in the evaluator (int32 arms: C11_gen_arms_fit_int32; exact float sums: checked domain of "
+           "the correspondence)",
            "translator/gen_cbca_kernels.py (one ast construct -> one IR constructor; numbering of the variables)",
            "scipy.ndimage.zoom (shifted right images) and np.nanmedian"]
 GEN_OBLIGATIONS = [
@@ -67,6 +68,7 @@ GEN_OBLIGATIONS = [
     "(Proofs/CbcaIRP.v gen_* instantiated with the generated trees)",
     "C11_gen_model_eq_spec: generated cross_support on both images, the four generated kernels chained as the plane "
     "loop chains them, anchor + NaN re-injection + division = agg_spec, for every image pair, plane and pixel",
+    "C11_gen_arms_fit_int32: the arms stored by cross_support fit the int32 cells (cbca_distance <= 2^31 or sides <= 2^31)",
     "C11_gen_example_runs: vm_compute of the evaluator on the generated cross_support (distance-1 witness) and "
     "cbca_step_1 (NaN cost, sentinel read)",
 ]
@@ -472,9 +474,9 @@ def _same(impl, model):
     return F(impl) == F(model)
 
 
-def _rand_arms(rng, nr, nc, bounded):
-    """(nr, nc, 4) int16: [left, right, top, bot]; bounded = inside the image (the left table), else only >= 0"""
-    a = np.zeros((nr, nc, 4), dtype=np.int16)
+def _rand_arms(rng, nr, nc, bounded, dtype):
+    """(nr, nc, 4) arm table: [left, right, top, bot]; bounded = inside the image (the left table), else only >= 0"""
+    a = np.zeros((nr, nc, 4), dtype=dtype)
     for r in range(nr):
         for c in range(nc):
             if bounded:
@@ -510,6 +512,8 @@ def kernel_cases(rng, n):
     """n direct calls per kernel: (fid, name, impl thunk, model argument, replay description)"""
     from pandora.aggregation import cbca
 
+    # the arm tables given to steps 2 and 4 have the integer type cross_support returns
+    arm_t = cbca.cross_support(np.zeros((1, 1), dtype=np.float32), 1, np.float32(1.0)).dtype
     out = []
     for i in range(n):
         # ---- cross_support
@@ -540,7 +544,7 @@ def kernel_cases(rng, n):
         # ---- cbca_step_2
         nr, nc, nc_r = rng.randrange(1, 6), rng.randrange(1, 8), rng.randrange(1, 8)
         s1 = _rand_floats(rng, nr, nc + 1, np.float64, rng.choice([0.0, 0.0, 0.1]))
-        c_l, c_r = _rand_arms(rng, nr, nc, True), _rand_arms(rng, nr, nc_r, False)
+        c_l, c_r = _rand_arms(rng, nr, nc, True, arm_t), _rand_arms(rng, nr, nc_r, False, arm_t)
         rc, rcr = _rand_cols(rng, nc, nc_r)
         out.append((3, "cbca_step_2",
                     (lambda s1=s1, c_l=c_l, c_r=c_r, rc=rc, rcr=rcr: list(cbca.cbca_step_2(s1, c_l, c_r, rc, rcr))),
@@ -558,7 +562,7 @@ def kernel_cases(rng, n):
         nr, nc, nc_r = rng.randrange(1, 6), rng.randrange(1, 8), rng.randrange(1, 8)
         s3 = _rand_floats(rng, nr + 1, nc, np.float64, rng.choice([0.0, 0.0, 0.1]))
         sm2 = np.array([[rng.randrange(0, 12) for _ in range(nc)] for _ in range(nr)], dtype=np.float32).reshape(nr, nc)
-        c_l, c_r = _rand_arms(rng, nr, nc, True), _rand_arms(rng, nr, nc_r, False)
+        c_l, c_r = _rand_arms(rng, nr, nc, True, arm_t), _rand_arms(rng, nr, nc_r, False, arm_t)
         rc, rcr = _rand_cols(rng, nc, nc_r)
         out.append((5, "cbca_step_4",
                     (lambda s3=s3, sm2=sm2, c_l=c_l, c_r=c_r, rc=rc, rcr=rcr:
@@ -590,6 +594,59 @@ def _plain(x):
     if isinstance(x, F):
         return float(x)
     return x
+
+
+
+# ---------------------------------------------------------------- arms longer than 32767 pixels
+# C11_gen_arms_fit_int32 (Props/C11.v) bounds an arm by min(cbca_distance - 1, image side - 1): no sample of small
+# images can exercise the width of the integer type the arms are stored in, so one wide flat row is run on every check.
+
+
+def wide_image_regression(ctx, full):
+    """1 x 33000 flat pair, cbca_distance 40000: every pixel of the row is in every arm, so the left arm of column c is
+    c, its right arm n - 1 - c (closed form of the specification on a flat unmasked row), and the aggregated cost of a
+    constant cost plane is that constant whatever the region"""
+    from pandora.aggregation import cbca
+
+    n, dist = 33000, 40000
+    replay = {"wide_row": True, "nc": n, "distance": dist, "left": 7, "right": 9, "intensity": [5, 1]}
+    img = np.full((1, n), 7, dtype=np.float32)
+    cross = cbca.cross_support(img, dist, np.float32(5.0))
+    ctx.traces += 1
+    cols = np.arange(n)
+    want = np.zeros((n, 4), dtype=np.int64)
+    want[:, 0] = np.minimum(dist - 1, cols)
+    want[:, 1] = np.minimum(dist - 1, n - 1 - cols)
+    ctx.case(("wide_row", "arms"))
+    ctx.count("wide_row_arm_checks", 4 * n)
+    got = cross[0].astype(np.int64)
+    if not np.array_equal(got, want):
+        c, k = [int(x) for x in np.argwhere(got != want)[0]]
+        ctx.violation("arm_longer_than_32767",
+                      f"cross_support on a flat 1 x {n} row with cbca_distance={dist}: arm {['left', 'right', 'top', 'bot'][k]} "
+                      f"of column {c} is {int(got[c, k])}; the longest run of the specification has {int(want[c, k])} pixels",
+                      replay)
+    if not full:
+        return
+    case = dict(nr=1, nc=n, left=[[7] * n], right=[[9] * n], mask_left=None, mask_right=None, valid=0, nodata=1,
+                method="sad", window=1, subpix=1, dmin=0, dmax=0, distance=dist, intensity=[5, 1])
+    L, R, cv = build_inputs(case)
+    before = cv["cost_volume"].data.copy()
+    aggregator(case).cost_volume_aggregation(L, R, cv)
+    after = cv["cost_volume"].data
+    ctx.traces += 1
+    ctx.case(("wide_row", "aggregate"))
+    ctx.count("wide_row_aggregate_checks", n)
+    if not (before == 2).all():
+        ctx.broken_obligation("assumption:wide_row_costs", "sad of constant images 7 and 9 is not 2 everywhere")
+        return
+    bad = np.argwhere(~(np.abs(after[0, :, 0] - 2.0) <= 2.0 ** -16))
+    if bad.size:
+        c = int(bad[0][0])
+        ctx.violation("arm_longer_than_32767",
+                      f"flat 1 x {n} pair (left 7, right 9, sad, window 1, d = 0), cbca_distance={dist}: every input cost is "
+                      f"2, so every regional mean is 2; the aggregated cost of column {c} is {float(after[0, c, 0])} "
+                      f"({bad.shape[0]} columns differ)", replay)
 
 
 def prepare(ctx, case):
@@ -656,10 +713,14 @@ def run(ctx):
     ctx.gen_obligations = list(GEN_OBLIGATIONS)
     quick = ctx.tier == "quick"
     model = core.Model("x11")
+    if getattr(ctx, "replay_case", None) is not None and ctx.replay_case.get("wide_row"):
+        wide_image_regression(ctx, True)
+        return
     if getattr(ctx, "replay_case", None) is not None:
         cases = [dict(ctx.replay_case)]
     else:
         kernel_correspondence(ctx, 60 if quick else 600)
+        wide_image_regression(ctx, True)
         n = 150 if quick else 3000
         cases = [dict(c) for c in CORPUS]
         # long arms and arms cut by masks / sides are forced on a share of the cases
